@@ -18,6 +18,7 @@ def claim_world(it, last_claimed, nflows=1, expanded=False, start=5, end=20, his
     first = min(first, hist_epochs[0])
     hist = [([Str('alice'), e], U128(c.sym('uw_%s' % 'abcd'[i], 120))) for i, e in enumerate(hist_epochs)]
     w.map('address_weight_snapshot', hist)
+    c.assume(z3.Int('alice_weight') == hist[-1][1].fields[0])          # Inv: ADDRESS_WEIGHT is the latest history entry
     snaps = []
     gws = {}
     for e in range(min(first, start) , CUR + 1):
@@ -56,7 +57,7 @@ def flow_after(p, i):
 
 def run(ck):
     prog = ck.program('incentive', 'white_whale_std')
-    cfgs = [(8, 1, False, 5, None), (8, 1, True, 5, None), (None, 1, False, 9, None), (None, 2, False, 8, [8, 10])]
+    cfgs = [(8, 1, False, 5, None), (8, 1, True, 5, None), (None, 1, False, 9, None), (None, 2, False, 8, [8, 10]), (8, 0, False, 5, [9, 11]), (None, 0, False, 5, [10, 11]), (None, 1, False, 8, [6, 7])]
     if ck.tier == 'thorough': cfgs += [(7, 1, False, 5, None), (8, 2, False, 5, None), (7, 1, True, 5, None), (None, 1, False, 8, None)]
     for last, nflows, expanded, start, hist_epochs in cfgs:
         tag = 'claim.last%s.f%d%s.s%d%s' % (last, nflows, '.exp' if expanded else '', start, '.gap' if hist_epochs else '')
@@ -89,6 +90,18 @@ def run(ck):
                     ck.oblige('C13.claim.reward_le_emission.%s.f%d' % (tag, i), p,
                               z3.Or(*[e.amount > (sorted(em.items())[-1][1] if em else 0) for e in sends]) if sends else False,
                               'no single payout exceeds the cumulative emission of the flow (each is bounded by its epoch\'s emission in the code\'s own check)')
+                    # concrete-weight configurations: the weight a claim uses for an epoch is the history entry in force at that epoch (the latest one
+                    # recorded for an epoch <= it), over that epoch's snapshot: paid = sum_e floor(emission_e * w_e / gw_e)
+                    if hist_epochs is not None and nflows == 1:
+                        cum = sorted((k, v) for k, v in em.items()); prev = 0; want = 0
+                        for e_id, cumv in cum:
+                            emission = z3.simplify(zint(cumv) - zint(prev)); prev = cumv
+                            inforce = [j for j, he in enumerate(hist_epochs) if he <= e_id]
+                            w_e = (250 + 150 * inforce[-1]) if inforce else 0
+                            share = w_e * E18 // 1000            # Decimal::from_ratio(w, 1000)
+                            want = want + p.div(emission * share, E18)
+                        ck.oblige('C13.claim.weight_in_force.%s.f%d' % (tag, i), p, paid != want, 'each epoch is paid with the weight in force at that epoch (latest history entry not after it), over that epoch\'s snapshot',
+                                  site='claim weight in force')
                     # as quoted
                     if q.variant == 'Ok':
                         quoted = 0
@@ -96,6 +109,14 @@ def run(ck):
                             if same(a.fields[0].fields[0], name): quoted = quoted + a.fields[1].fields[0]
                         ck.oblige('C13.claim.eq_query.%s.f%d' % (tag, i), p, paid != quoted, 'a successful claim pays exactly what the rewards query reported immediately before')
                 ck.oblige('C13.claim.query_ok.' + tag, p, q.variant != 'Ok', 'the rewards query succeeds whenever the claim does')
+                # the weight history after a claim: one entry, for the next epoch, holding the weight the user has NOW (Inv: ADDRESS_WEIGHT equals the latest
+                # history entry, which a position change made in the current epoch has written for the next epoch)
+                hist_after = [(k, v) for k, v in p.world.storage['address_weight_snapshot'].entries if same(sname(k[0]), 'alice')]
+                cur_w = z3.Int('alice_weight')
+                okh = len(hist_after) == 1 and not is_sym(hist_after[0][0][1]) and hist_after[0][0][1] == CUR + 1
+                ck.oblige('C13.claim.history_next.' + tag, p, (not okh) or zint(hist_after[0][1].fields[0]) != cur_w,
+                          'after a claim the weight recorded for the next epoch is the weight the user holds now (a position change made earlier in this epoch is not lost)',
+                          site='claim rewrites the next-epoch history entry')
                 lc = p.world.storage['last_claimed_epoch'].entries
                 ck.oblige('C13.claim.cursor.' + tag, p, len(lc) != 1 or lc[0][1] != CUR, 'the claim cursor moves to the current epoch')
         ck.require(n >= 1, tag + ': no Ok claim path')
